@@ -857,6 +857,65 @@ theorem served_proof_verifies (L : Nat) (hL : 0 < L) (hlen : ∀ x, (H x).length
   refine ⟨C10.txproof_validates H L hL hlen txs i hi, ?_⟩
   simp [proofFor, List.getD_eq_getElem?_getD, hi]
 
+/-- **Every proof `TxSearch` serves verifies against the data hash of the block it refers to**, for
+every index result set, both orders, every page and page size: each result of the page is one of the
+hits, and its proof is the one of the block AT THAT RESULT'S HEIGHT — it validates against that
+block's `DataHash` and carries the transaction at (height, index). -/
+theorem served_search_proofs_verify (L : Nat) (hL : 0 < L) (hlen : ∀ x, (H x).length = L)
+    (txsAt : Int → List Bytes) (hits : List Hit) (order : String) (page perPage : Option Int)
+    (total : Nat) (res : List (Hit × Option TxProof))
+    (hidx : ∀ h ∈ hits, h.index < (txsAt h.height).length)
+    (hres : txSearch H txsAt hits order true page perPage = .ok (total, res)) :
+    ∀ r ∈ res, r.1 ∈ hits ∧ ∃ p, r.2 = some p ∧
+      validate H (txsHash H (txsAt r.1.height)) p = .ok () ∧
+      p.data = (txsAt r.1.height).getD r.1.index [] := by
+  have hsorted : ∀ (desc : Bool) (l : List Hit) (x : Hit), x ∈ sortHits desc l → x ∈ l := by
+    intro desc l
+    have hins : ∀ (y : Hit) (m : List Hit) (x : Hit), x ∈ insertHit desc y m → x = y ∨ x ∈ m := by
+      intro y m
+      induction m with
+      | nil => intro x hx; simp [insertHit] at hx; exact Or.inl hx
+      | cons z zs ih =>
+        intro x hx
+        simp only [insertHit] at hx
+        split at hx
+        · simp only [List.mem_cons] at hx
+          rcases hx with h | h | h
+          · exact Or.inl h
+          · right; simp [h]
+          · right; simp [h]
+        · simp only [List.mem_cons] at hx
+          rcases hx with h | h
+          · right; simp [h]
+          · rcases ih x h with h' | h'
+            · exact Or.inl h'
+            · right; simp [h']
+    induction l with
+    | nil => intro x hx; simp [sortHits] at hx
+    | cons y ys ih =>
+      intro x hx
+      simp only [sortHits, List.foldr_cons] at hx
+      rcases hins y _ x hx with h | h
+      · simp [h]
+      · have := ih x (by simpa [sortHits] using h); simp [this]
+  unfold txSearch at hres
+  split at hres; · cases hres
+  simp only at hres
+  split at hres; · cases hres
+  rename_i p hp
+  simp only [Except.ok.injEq, Prod.mk.injEq] at hres
+  obtain ⟨_, hmap⟩ := hres
+  simp only [if_true] at hmap
+  intro r hr
+  rw [← hmap, List.mem_map] at hr
+  obtain ⟨h, hmem, hr⟩ := hr
+  have hin : h ∈ hits := hsorted _ _ _ (List.mem_of_mem_drop (List.mem_of_mem_take hmem))
+  have hi := hidx h hin
+  obtain ⟨hv, hd⟩ := served_proof_verifies H L hL hlen (txsAt h.height) h.index hi
+  rw [← hr]
+  refine ⟨hin, _, rfl, hv, ?_⟩
+  rw [hd]; simp [List.getD_eq_getElem?_getD, hi]
+
 /-! ## Non-vacuity: the hypotheses of the theorems above are satisfiable by a concrete chain -/
 
 example : ChainOK Wit.lc0 ∧ StoreOK Wit.lc0 ∧ HonestBlock Wit.H0 Wit.lb Wit.blk ∧
